@@ -89,9 +89,6 @@ let read_op t =
   | "av" ->
       let l = next_zlist t in
       (OAppendPtr (l, zlen l), SAppendPtr (l, zlen l))
-  | "zv" ->
-      let l = next_zlist t in
-      (OAssignPtr (l, zlen l), SAssignPtr (l, zlen l))
   | "ass" ->
       let l = next_zlist t in
       let p = next_z t in
@@ -144,8 +141,7 @@ let str_arg name = List.mem name [ "ast"; "pes"; "pls"; "ass"; "zss"; "ist"; "is
 
 (* one harness operation = one or two model operations (constructors and operator+ with a left C string /
    character build a new string and then append); the state is printed after the last one *)
-let read_op_named t =
-  let name = (match t.rest with x :: _ -> x | [] -> "") in
+let read_op_named0 t name =
   match name with
   | "kss" ->
       ignore (next_str t);
@@ -164,10 +160,30 @@ let read_op_named t =
       let p = next_z t in
       let n = next_z t in
       (name, [ (OAssignViewSub (l, p, n), SAssignViewSub (l, p, n)) ])
-  | "kv" | "kr" ->
+  | "kv" | "kr" | "zv" | "zr" ->
+      (* basic_inplace_string(view) / (first, last) / assign(view) / assign(first, last) with pointers:
+         value-initialised storage + append(first, last) *)
       ignore (next_str t);
       let l = next_zlist t in
-      (name, [ (OAssignPtr (l, zlen l), SAssignPtr (l, zlen l)) ])
+      (name, [ (OAssignViewSub (l, Z0, npos_z), SAssignViewSub (l, Z0, npos_z)) ])
+  | "krr" | "zrr" ->
+      (* ... with etl::reverse_iterator<pointer>: random access, the characters arrive in reverse order *)
+      ignore (next_str t);
+      let l = List.rev (next_zlist t) in
+      (name, [ (OAssignViewSub (l, Z0, npos_z), SAssignViewSub (l, Z0, npos_z)) ])
+  | "krf" | "zrf" ->
+      (* ... with a forward-only iterator: no up-front check, one push_back per character onto the empty string *)
+      ignore (next_str t);
+      let l = next_zlist t in
+      (name, [ (OAssignFill (Z0, Z0), SAssignFill (Z0, Z0)); (OAppendRangeIn l, SAppendRange l) ])
+  | "arr" ->
+      ignore (next_str t);
+      let l = List.rev (next_zlist t) in
+      (name, [ (OAppendRange l, SAppendRange l) ])
+  | "arf" | "ari" ->
+      ignore (next_str t);
+      let l = next_zlist t in
+      (name, [ (OAppendRangeIn l, SAppendRange l) ])
   | "kz" ->
       ignore (next_str t);
       let a = next_zlist t @ [ Z0 ] in
@@ -185,6 +201,78 @@ let read_op_named t =
   | _ ->
       let m, sp = read_op t in
       (name, [ (m, sp) ])
+
+let zmin a b = if Big.leq (big_of_z a) (big_of_z b) then a else b
+let zsub a b = z_of_big (Big.sub (big_of_z a) (big_of_z b))
+let zadd a b = z_of_big (Big.add (big_of_z a) (big_of_z b))
+let zle a b = Big.leq (big_of_z a) (big_of_z b)
+let rec drop_z n l = if zle n Z0 then l else (match l with [] -> [] | _ :: r -> drop_z (zsub n (z_of_int 1)) r)
+
+(* operations whose argument points into / is the string itself: the model operation is built from the model's
+   CURRENT state (the array behind s.data() + off is [self_src s off]), the spec operation from the current std
+   contents.  (off, count) are reduced to a range of the string exactly like the harness does:
+   off' = min(off, size()), count' = min(count, size() - off') *)
+let self_ops t name : ((istr -> op) * (z list -> sop)) list =
+  let clamp size off n = let o = zmin off size in (o, zmin n (zsub size o)) in
+  let mk fm fs = [ ((fun s -> fm s), (fun l -> fs l)) ] in
+  let nz = next_z in
+  match name with
+  | "aps" | "ars" ->
+      let off = nz t in let n = nz t in
+      mk (fun s -> let o, k = clamp (get_size s) off n in
+                   if name = "aps" then OAppendPtr (self_src s o, k) else OAppendRange (List.filteri (fun i _ -> i < int_of_z k) (self_src s o)))
+         (fun l -> let o, k = clamp (zlen l) off n in
+                   if name = "aps" then SAppendPtr (drop_z o l, k) else SAppendRange (List.filteri (fun i _ -> i < int_of_z k) (drop_z o l)))
+  | "asps" ->
+      let off = nz t in let n = nz t in
+      mk (fun s -> let o, k = clamp (get_size s) off n in OAssignPtr (self_src s o, k))
+         (fun l -> let o, k = clamp (zlen l) off n in SAssignPtr (drop_z o l, k))
+  | "ips" ->
+      let i = nz t in let off = nz t in let n = nz t in
+      mk (fun s -> let o, k = clamp (get_size s) off n in OInsertPtr (i, self_src s o, k))
+         (fun l -> let o, k = clamp (zlen l) off n in SInsertPtr (i, drop_z o l, k))
+  | "zeqs" | "zcss" ->
+      let off = nz t in
+      mk (fun s -> OAssignCstr (self_src s (zmin off (get_size s)))) (fun l -> SAssignCstr (drop_z (zmin off (zlen l)) l @ [ Z0 ]))
+  | "acss" ->
+      let off = nz t in
+      mk (fun s -> OAppendCstr (self_src s (zmin off (get_size s)))) (fun l -> SAppendCstr (drop_z (zmin off (zlen l)) l @ [ Z0 ]))
+  | "icss" ->
+      let i = nz t in let off = nz t in
+      mk (fun s -> OInsertCstr (i, self_src s (zmin off (get_size s)))) (fun l -> SInsertCstr (i, drop_z (zmin off (zlen l)) l @ [ Z0 ]))
+  | "asts" | "pess" | "plss" -> mk (fun s -> OAppendStr (contents s)) (fun l -> SAppendStr l)
+  | "ists" | "ivss" ->
+      let i = nz t in
+      mk (fun s -> OInsertPtr (i, self_src s Z0, get_size s)) (fun l -> SInsertPtr (i, l, zlen l))
+  | "avss" -> mk (fun s -> OAppendPtr (self_src s Z0, get_size s)) (fun l -> SAppendPtr (l, zlen l))
+  | "zself" -> []   (* s.assign(s); s = s: the defaulted copy assignment from itself changes nothing *)
+  | "zvself" -> mk (fun s -> OAssignViewSub (contents s, Z0, npos_z)) (fun l -> SAssignViewSub (l, Z0, npos_z))
+  | "sws" -> mk (fun s -> OSwapWith (contents s)) (fun l -> SSwapWith l)
+  | "asss" ->
+      let p = nz t in let n = nz t in
+      mk (fun s -> OAppendStrSub (contents s, p, n)) (fun l -> SAppendStrSub (l, p, n))
+  | "zsss" ->
+      let p = nz t in let n = nz t in
+      mk (fun s -> OAssignStrSub (contents s, p, n)) (fun l -> SAssignStrSub (l, p, n))
+  | "avsss" ->
+      let p = nz t in let n = nz t in
+      mk (fun s -> OAppendViewSub (contents s, p, n)) (fun l -> SAppendViewSub (l, p, n))
+  | "zvsss" ->
+      let p = nz t in let n = nz t in
+      mk (fun s -> OAssignViewSub (contents s, p, n)) (fun l -> SAssignViewSub (l, p, n))
+  | "isss" | "ivsss" ->
+      let i = nz t in let p = nz t in let n = nz t in
+      mk (fun s -> OInsertStrSub (i, contents s, p, n)) (fun l -> SInsertStrSub (i, l, p, n))
+  | _ -> raise Not_found
+
+let self_names = [ "aps"; "ars"; "asps"; "ips"; "zeqs"; "zcss"; "acss"; "icss"; "asts"; "pess"; "plss"; "ists"; "ivss"; "avss";
+                   "zself"; "zvself"; "sws"; "asss"; "zsss"; "avsss"; "zvsss"; "isss"; "ivsss" ]
+
+let read_op_named t =
+  let name = (match t.rest with x :: _ -> x | [] -> "") in
+  let const l = List.map (fun (m, sp) -> ((fun (_ : istr) -> m), (fun (_ : z list) -> sp))) l in
+  if List.mem name self_names then (ignore (next_str t); (name, self_ops t name))
+  else let name, l = read_op_named0 t name in (name, const l)
 
 let state_s (s : istr) = join [ "S"; zs (get_size s); zs (terminator s); zlist_s (contents s) ]
 let list_s (l : z list) = join [ "S"; string_of_int (List.length l); "0"; zlist_s l ]
@@ -211,17 +299,19 @@ let run_case op t =
         | _ -> None
       in
       (* the basic_inplace_string argument of a harness operation is constructed first *)
-      let arg_exists name subs =
+      let arg_exists name subs s0 =
         (not (str_arg name))
-        || List.for_all (fun (mo, _) -> match str_of mo with Some l -> fits cap l | None -> true) subs
+        || List.for_all (fun (fm, _) -> match str_of (fm s0) with Some l -> fits cap l | None -> true) subs
       in
       let rec go_m s acc = function
         | [] -> join (List.rev acc)
         | (name, subs) :: r -> (
             let rec run_subs s ret = function
               | [] -> Ok (s, ret)
-              | (o, _) :: more -> (
+              | (fm, _) :: more -> (
+                  let o = fm s in
                   let ret' =
+                    if name = "sws" then ret else
                     match (returned_pos o, returned_count s o) with
                     | Some p, _ -> [ "R"; zs p ]
                     | None, Ok (Some n) -> [ "R"; zs n ]
@@ -240,7 +330,7 @@ let run_case op t =
                   | UB k -> UB k
                   | OutOfFuel -> OutOfFuel)
             in
-            match (if arg_exists name subs then run_subs s [] subs else Contract) with
+            match (if arg_exists name subs s then run_subs s [] subs else Contract) with
             | Ok (s', ret) ->
                 if raw then go_m s' (join ("B" :: List.map zs s'.buf) :: acc) r
                 else go_m s' (join (state_s s' :: ret) :: acc) r
@@ -253,8 +343,10 @@ let run_case op t =
         | (name, subs) :: r -> (
             let rec run_subs l ret = function
               | [] -> Some (l, ret)
-              | (_, o) :: more -> (
+              | (_, fs) :: more -> (
+                  let o = fs l in
                   let ret' =
+                    if name = "sws" then ret else
                     match (spec_returned_pos o, spec_returned_count l o) with
                     | Some p, _ -> [ "R"; zs p ]
                     | None, Some n -> [ "R"; zs n ]
@@ -262,7 +354,7 @@ let run_case op t =
                   in
                   match spec_step_fits cap l o with Some l' -> run_subs l' ret' more | None -> None)
             in
-            match (if arg_exists name subs then run_subs l [] subs else None) with
+            match (if arg_exists name subs (default_str cap ck) then run_subs l [] subs else None) with
             | Some (l', ret) -> go_s l' (join (list_s l' :: ret) :: acc) r
             | None -> "na")
       in
@@ -309,6 +401,58 @@ let run_case op t =
       in
       match mk_str cap ck l with
       | Ok s -> (res_s state_s (model s), spec)
+      | _ -> ("contract", "na"))
+  | "replaces" | "replace5s" | "replaceps" | "replacezs" | "replaceis" | "replaceips" | "replaceizs" -> (
+      (* the replacement lies inside the string itself *)
+      let l = next_zlist t in
+      let a = next_z t in
+      let b = next_z t in
+      let off, cnt2 =
+        match op with
+        | "replace5s" | "replaceps" | "replaceips" ->
+            let x = next_z t in
+            let y = next_z t in
+            (x, y)
+        | "replacezs" | "replaceizs" -> (next_z t, Z0)
+        | _ -> (Z0, Z0)
+      in
+      let prefix n x = List.filteri (fun i _ -> i < int_of_z n) x in
+      let iter = List.mem op [ "replaceis"; "replaceips"; "replaceizs" ] in
+      let ins =
+        match op with
+        | "replaces" | "replaceis" -> Some l
+        | "replace5s" -> s_substr l off cnt2
+        | "replaceps" | "replaceips" -> Some (prefix cnt2 (drop_z off l))
+        | _ -> s_cstr (drop_z off l @ [ Z0 ])
+      in
+      let spec =
+        match ins with
+        | Some x -> (
+            match s_replace l a (if iter then zsub b a else b) x with
+            | Some r when fits cap r -> "ok " ^ list_s r
+            | _ -> "na")
+        | None -> "na"
+      in
+      match mk_str cap ck l with
+      | Ok s ->
+          let with_len f =
+            match strlen_m (arr_view (self_src s off)) with
+            | Ok n -> f n
+            | Contract -> Contract
+            | UB k -> UB k
+            | OutOfFuel -> OutOfFuel
+          in
+          let m =
+            match op with
+            | "replaces" -> replace_m s a b (contents s)
+            | "replace5s" -> replace5_m s a b (contents s) off cnt2
+            | "replaceps" -> replace_ptr_m s a b (self_src s off) cnt2
+            | "replacezs" -> replace_cstr_m s a b (self_src s off)
+            | "replaceis" -> replace_it_m s a b (contents s)
+            | "replaceips" -> replace_it_m s a b (prefix cnt2 (self_src s off))
+            | _ -> with_len (fun n -> replace_it_m s a b (prefix n (self_src s off)))
+          in
+          (res_s state_s m, spec)
       | _ -> ("contract", "na"))
   | "replace" | "replace5" | "replacep" | "replacez" -> (
       let l = next_zlist t in
